@@ -129,6 +129,13 @@ func handleIso(req isoReq) (resp isoResp) {
 			} else if err2 == nil && (t2 == nil || t2.Root == nil) {
 				resp.Second = "second GetTemplate returned an unusable template"
 			}
+		case "warm-parse":
+			// every file has been asked for (and is remembered) before the source is handed to Set.Parse
+			s := isoSet(files, req)
+			for k := range files {
+				s.GetTemplate(k)
+			}
+			t, err = s.Parse(req.Name, req.Src)
 		default:
 			s := isoSet(files, req)
 			t, err = s.Parse(req.Name, req.Src)
